@@ -48,8 +48,8 @@ def plan(tier, seed):
     quick = tier == "quick"
     return {
         "nshards": 16,
-        "params": {"soft_s": 600 if quick else 1800, "nprograms": 14 if quick else 120, "script_len": 10 if quick else 20, "fault_every": 12 if quick else 4, "fault_points": 3 if quick else 12},
-        "hard_timeout_s": 1200 if quick else 4000,
+        "params": {"soft_s": 1500 if quick else 5400, "nprograms": 14 if quick else 120, "script_len": 10 if quick else 20, "fault_every": 12 if quick else 4, "fault_points": 3 if quick else 12},
+        "hard_timeout_s": 2700 if quick else 9000,
     }
 
 
